@@ -652,6 +652,11 @@ class Exec:
         self.dict_lemmas(d, kt)
         if raise_on_missing and not self.spec_mode:
             if not self.branch(d.has[kt]):
+                if getattr(d.ty, "maybe_default", False) and isinstance(d.ty.v, TObj) and self.choose([z3.BoolVal(True), z3.BoolVal(True)]) == 1:
+                    # a defaultdict: the factory's value is inserted under the key and returned
+                    dv = VObj(self.fresh("default_value", ObjSort))
+                    self.dict_set(v, k, dv)
+                    return dv
                 raise PyRaise(VExc("KeyError", [k]))
         return self.from_term(d.val[kt], d.ty.v)
 
